@@ -16,6 +16,11 @@
   implementation keeps them in hash maps, so order is not observable there): padding, `splitn(" | ")`, trimming, the
   three row shapes, the sorted rows, the two-pass reconstruction of the label table (addresses and flags from `.SYMBOL`,
   source positions from the index table of `.DEBUG`), the divider search and the comment / blank-line filters.
+  `source_text_roundtrip_nodebug`, `linked_text_roundtrip` (Lemmas/TxtSource): `SymOk` and the block conditions hold for
+  every object file assembled WITHOUT debug symbols from a source text that parses (label tokens are an ASCII letter or
+  underscore followed by word characters; their upper-casing contains no white space and no bar — kernel-checked over the
+  generated Unicode tables) and are kept by `link`, so every file produced by assembling without debug symbols and by
+  linking such files in any order and grouping round-trips, with no further hypothesis.
   Not proved: the line table of `.DEBUG` (files assembled with debug symbols: line numbers, `????` addresses, escaped
   source lines re-joined and condensed by `LineSymbolMap::new`); that part is exercised by the correspondence check: the
   model's writer is compared byte for byte with the implementation's and both readers must return the original file.
@@ -24,6 +29,7 @@
 import Lc3V.Lemmas.C18Core
 import Lc3V.Lemmas.TxtBlocks
 import Lc3V.Lemmas.TxtSym
+import Lc3V.Lemmas.TxtSource
 namespace Lc3V.C18
 open Lc3V Txt
 
@@ -33,6 +39,8 @@ def obligations : List Lean.Name :=
    ``Lc3V.Txt.readText_blocks, ``Lc3V.Txt.text_section_roundtrip,
    ``Lc3V.Txt.splitN_seg, ``Lc3V.Txt.trim_pad, ``Lc3V.Txt.parseTable_rows, ``Lc3V.Txt.sortBy_perm, ``Lc3V.Txt.symFold,
    ``Lc3V.Txt.idxFold, ``Lc3V.Txt.restore_src, ``Lc3V.Txt.kept_lines2, ``Lc3V.Txt.groupLines_groups, ``Lc3V.Txt.read_sym,
-   ``Lc3V.Txt.read_rel, ``Lc3V.Txt.read_dbg, ``Lc3V.Txt.sym_section_roundtrip]
+   ``Lc3V.Txt.read_rel, ``Lc3V.Txt.read_dbg, ``Lc3V.Txt.sym_section_roundtrip,
+   ``Lc3V.lexOne_label_word, ``Lc3V.parseAst_names, ``Lc3V.upperC_word_ok, ``Lc3V.nameOk_upper, ``Lc3V.source_symOk,
+   ``Lc3V.source_text_roundtrip_nodebug, ``Lc3V.link_txtOk, ``Lc3V.C20.linked_text_roundtrip]
 
 end Lc3V.C18
